@@ -742,7 +742,7 @@ def phi_4D_admix_into_4(phi, f1,f2,f3, xx,yy,zz,aa):
     Returns:
         phi (array): The updated phi array.
     """
-    Demes.cache.append(Demes.Pulse(sources=[1,2,3], dest=1, proportions=[f1, f2, f3]))
+    Demes.cache.append(Demes.Pulse(sources=[1,2,3], dest=4, proportions=[f1, f2, f3]))
     lower_w_index, upper_w_index, frac_lower, frac_upper, norm \
             = _four_pop_admixture_intermediates(phi, f1,f2,f3, xx,yy,zz,aa, yy)
 
